@@ -5,12 +5,13 @@ done, in which order, with which amounts — and which failures come after the f
 caller's branched store.
 -/
 import PalomaModel.Props.Translated.Lemmas
+import PalomaModel.Model.Bridge
 
 set_option linter.unusedSimpArgs false
 set_option linter.unusedVariables false
 
 namespace Paloma.TranslatedTie
-open Paloma.Gen Paloma.Gen.Translated
+open Paloma.Gen Paloma.Gen.Translated Paloma.Bridge
 
 /-! ## Property theorems -/
 
@@ -109,6 +110,37 @@ theorem removeFromPoolAndRefund_failed_effects (cz : Bool) (id : UInt64) (sb tf 
   all_goals (cases cif <;> try simp at h)
   all_goals (cases ef <;> try simp at h)
   all_goals (obtain ⟨rfl, rfl⟩ := h; simp_all)
+
+/-! ### the model's transitions are these effects -/
+/-- what one effect of the pool functions does to the model state (sender `u`, token `tok`; `usage'` is the usage record
+    `UpdateBridgeTransferUsageWithLimit` computed; `t` is the pooled transfer a cancellation is about) -/
+def applyEffect (u tok : Nat) (usage' : Option Usage) (t : Tx) (s : St) : PoolEffect → St
+  | .usage => { s with usage := updO s.usage tok usage' }
+  | .lock a => { s with bal := upd2 s.bal u tok (s.bal u tok - a.toNat), escrow := upd s.escrow tok (s.escrow tok + a.toNat) }
+  | .allocId => { s with lastTx := s.lastTx + 1 }
+  | .store a x =>
+    { s with pool := { id := s.lastTx, sender := u, token := tok, amount := a.toNat, tax := x.toNat } :: s.pool,
+             accepted := { id := s.lastTx, sender := u, token := tok, amount := a.toNat, tax := x.toNat } :: s.accepted }
+  | .remove => { s with pool := s.pool.filter (fun x => x.id != t.id) }
+  | .refund a => { s with bal := upd2 s.bal t.sender t.token (s.bal t.sender t.token + a.toNat),
+                          escrow := upd s.escrow t.token (s.escrow t.token - a.toNat),
+                          refunded := t :: s.refunded }
+
+/-- C01: the model's accepted send is the translated effects of `AddToOutgoingPool`, applied in the translated order, with the
+    tax the model computes -/
+theorem sendOk_is_the_translated_effects (s : St) (u tok amt : Nat) (usage' : Option Usage) (t : Tx) :
+    ([PoolEffect.usage, .lock ((amt : Int) + (taxOf (s.tax tok) u amt : Nat)), .allocId, .store amt (taxOf (s.tax tok) u amt : Nat)]).foldl
+        (applyEffect u tok usage' t) s = sendOk s u tok amt usage' := by
+  simp only [List.foldl_cons, List.foldl_nil, applyEffect, sendOk, newTx, Tx.owed]
+  have e1 : ((amt : Int) + ((taxOf (s.tax tok) u amt : Nat) : Int)).toNat = amt + taxOf (s.tax tok) u amt := by omega
+  simp [e1]
+
+/-- C01: the model's accepted cancellation is the translated effects of `RemoveFromOutgoingPoolAndRefund` for the pooled transfer -/
+theorem cancelOk_is_the_translated_effects (s : St) (t : Tx) (usage' : Option Usage) :
+    ([PoolEffect.remove, .refund ((t.amount : Int) + (t.tax : Int))]).foldl (applyEffect t.sender t.token usage' t) s = cancelOk s t := by
+  simp only [List.foldl_cons, List.foldl_nil, applyEffect, cancelOk, Tx.owed]
+  have e1 : ((t.amount : Int) + (t.tax : Int)).toNat = t.amount + t.tax := by omega
+  simp [e1]
 
 /-- non-vacuity: a send of 100 with tax 3; the same send failing at the id counter after the lock; a cancel -/
 example : addToOutgoingPool false 0 (some 3) 100 false false false false false false false false
